@@ -6,9 +6,9 @@ Open Scope N_scope.
 Record response := mkResp { rs_status : N; rs_reason : list N; rs_headers : list header; rs_ranges : list crange }.
 Inductive cors_cfg := CAllowAll | COff (origins creds methods hdrs expose maxage : list N).
 Record assets := mkAssets { as_index : list N; as_style : list N; as_script : list N; as_favicon : list N; as_404 : list N }.
-Record config := mkCfg { cf_size : N; cf_cors : cors_cfg; cf_assets : assets; cf_time : list N }.
+(* cf_errmsg: the text of an error message (request parse error, handler error); never inspected by a theorem *)
+Record config := mkCfg { cf_size : N; cf_cors : cors_cfg; cf_assets : assets; cf_time : list N; cf_errmsg : list N }.
 
-Definition HEAD : list N := [72;69;65;68].
 Definition H (n v : list N) := mkH n v.
 Definition TRUE : list N := [116;114;117;101].
 Definition join (sep : list N) (l : list (list N)) : list N :=
@@ -33,7 +33,8 @@ Definition cors_off (origins creds methods hdrs expose maxage : list N) (r : req
   match get_header r Hd_ORIGIN with
   | None => []
   | Some o =>
-    if negb (contains origins (hvalue o)) then [] else          (* String::contains: substring, not membership *)
+    (* fix e79b41d: exact membership in the comma-split list, the empty Origin never matches (was String::contains) *)
+    if negb (negb (beqs (hvalue o) []) && existsb (beqs (hvalue o)) (split origins [44])) then [] else
     [H Hd_ACCESS_CONTROL_ALLOW_ORIGIN (hvalue o)] ++
     (if beqs creds TRUE then [H Hd_ACCESS_CONTROL_ALLOW_CREDENTIALS TRUE] else []) ++
     (if beqs (method r) OPTIONS then
@@ -168,7 +169,7 @@ Definition urlenc_controller (r : request) (rs0 : response) : fres :=
     if negb (beqs (lower (hvalue ct)) CT_URLENC) then FNoMatch else
     if negb (beqs (uri r) PATH_FORM_URLENC && beqs (method r) POST) then FNoMatch else
     match form_urlencoded_parse (body r) with
-    | None => FPanic FBodyUtf8
+    | None => FResp (mkResp 400 (reason 400) (rs_headers rs0) [text_range []])     (* fix: the prepared 400 is returned *)
     | Some m => FResp (mkResp 200 (reason 200) (rs_headers rs0) [text_range (echo_lines m)])
     end
   end.
@@ -186,7 +187,7 @@ Definition formget_controller (r : request) (rs0 : response) : fres :=
     end
   end.
 Definition CD_NAME : list N := Hd_CONTENT_DISPOSITION.
-Fixpoint multi_lines (ps : list part) : option (option (list N)) :=   (* None = panic; Some None = 400 *)
+Fixpoint multi_lines (ps : list part) : option (option (list N)) :=   (* None = 400 (was a panic before the fix); Some None = 400 *)
   match ps with
   | [] => Some (Some [])
   | p :: rest =>
@@ -226,7 +227,7 @@ Definition multipart_controller (r : request) (rs0 : response) : fres :=
         | MErr => FResp bad
         | MOk ps =>
           match multi_lines ps with
-          | None => FPanic FFieldName
+          | None => FResp bad
           | Some None => FResp bad
           | Some (Some l) => FResp (mkResp 200 (reason 200) (rs_headers rs0) [text_range l])
           end
@@ -235,10 +236,11 @@ Definition multipart_controller (r : request) (rs0 : response) : fres :=
     end
   end.
 
-Inductive outcome := Wrote (rs : response) (raw : list N) | Panicked (s : site) | PanickedLog | Wrote400.
+(* Wrote rs raw ok: the bytes handed to write_all, and whether Server::process returns Ok *)
+Inductive outcome := Wrote (rs : response) (raw : list N) (ok : bool) | Panicked (s : site).
 
-Definition static_process (guard : bool) (fs : fsys) (r : request) (rs : response) : sres response :=
-  match process_static guard fs r with
+Definition static_process (fs : fsys) (r : request) (rs : response) : sres response :=
+  match process_static fs r with
   | SPanic s => SPanic s
   | SErr st => SOk (mkResp st (reason st) (rs_headers rs) [whole [] Mt_TEXT_HTML Message])
   | SOk [] => SOk rs
@@ -252,13 +254,14 @@ Definition static_process (guard : bool) (fs : fsys) (r : request) (rs : respons
 
 (* StaticResourceController::is_matching_request (legacy entry point): the RAW uri is the file name *)
 Definition is_matching_legacy (fs : fsys) (r : request) : bool :=
+  if has_dotdot (uri r) then false else
   let SPr := cwd_str fs ++ uri r in
   match metadata fs SPr with
   | None | Some KDir => false
   | Some _ => can_open fs SPr && (beqs (method r) GET || beqs (method r) HEAD || (beqs (method r) OPTIONS && negb (beqs (uri r) [47])))
   end.
-Definition static_process_legacy (guard : bool) (fs : fsys) (r : request) (rs : response) : sres response :=
-  match process_static guard fs r with
+Definition static_process_legacy (fs : fsys) (r : request) (rs : response) : sres response :=
+  match process_static fs r with
   | SPanic s => SPanic s
   | SErr st => SOk (mkResp st (reason st) (rs_headers rs) [whole [] Mt_TEXT_HTML Message])
   | SOk [] => SOk rs
@@ -268,9 +271,13 @@ Definition static_process_legacy (guard : bool) (fs : fsys) (r : request) (rs : 
     SOk (mkResp st (reason st) (rs_headers rs ++ lm) l)
   end.
 
-Definition app_execute_gen (legacy guard : bool) (cfg : config) (fs : fsys) (r : request) : sres response :=
+Definition MSG_TARGET : list N :=    (* "request target must start with a slash" *)
+  [114;101;113;117;101;115;116;32;116;97;114;103;101;116;32;109;117;115;116;32;115;116;97;114;116;32;119;105;116;104;32;97;32;115;108;97;115;104].
+Definition app_execute_gen (legacy : bool) (cfg : config) (fs : fsys) (r : request) : sres response :=
   let a := cf_assets cfg in
   let rs0 := mkResp 501 (reason 501) (default_headers cfg r) [] in
+  (* fix d801876: only origin-form targets reach the controllers *)
+  if negb (starts_with (uri r) [47]) then SOk (mkResp 400 (reason 400) (rs_headers rs0) [text_range MSG_TARGET]) else
   if beqs (uri r) [47] then SOk (asset_controller fs INDEX_HTML (as_index a) Mt_TEXT_HTML 200 rs0) else
   if (legacy || beqs (method r) GET) && beqs (uri r) (47 :: NAME_STYLE) then SOk (asset_controller fs NAME_STYLE (as_style a) Mt_TEXT_CSS 200 rs0) else
   if (legacy || beqs (method r) GET) && beqs (uri r) (47 :: NAME_SCRIPT) then SOk (asset_controller fs NAME_SCRIPT (as_script a) Mt_TEXT_JAVASCRIPT 200 rs0) else
@@ -280,40 +287,39 @@ Definition app_execute_gen (legacy guard : bool) (cfg : config) (fs : fsys) (r :
   match multipart_controller r rs0 with FPanicPort => SPanic SPortUnwrap | FPanic _ => SPanic SUrlUnwrap | FResp x => SOk x | FNoMatch =>
   if beqs (method r) GET && beqs (uri r) (47 :: NAME_FAVICON) then SOk (asset_controller fs NAME_FAVICON (as_favicon a) Mt_IMAGE_SVG 200 rs0) else
   if legacy then
-    (if is_matching_legacy fs r then static_process_legacy guard fs r rs0
+    (if is_matching_legacy fs r then static_process_legacy fs r rs0
      else SOk (asset_controller fs NAME_404 (as_404 a) Mt_TEXT_HTML 404 rs0))
   else
-  match is_matching guard fs r with
+  match is_matching fs r with
   | SPanic s => SPanic s | SErr s => SErr s
-  | SOk true => static_process guard fs r rs0
+  | SOk true => static_process fs r rs0
   | SOk false => SOk (asset_controller fs NAME_404 (as_404 a) Mt_TEXT_HTML 404 rs0)
   end end end end end.
 Definition app_execute := app_execute_gen false.
 
-(* Log::request_response sums the part sizes in an i32 *)
-Fixpoint log_sum (acc : N) (l : list crange) : option N :=
-  match l with
-  | [] => Some acc
-  | c :: r => if N.ltb (c_size c) (2 ^ 31) then
-                let acc' := acc + c_size c in if N.ltb acc' (2 ^ 31) then log_sum acc' r else None
-              else log_sum acc r
-  end.
+(* Log::request_response sums the part sizes in a u128 (fix 474e5c8; the i32 sum overflowed): no panic site left *)
 
-Definition process_gen (legacy guard : bool) (cfg : config) (fs : fsys) (input : list N) : outcome :=
+(* Server::bad_request_response: the default headers of a synthetic GET request, one text/plain part *)
+Definition synthetic_request : request := mkR GET [] [] [] [].
+Definition bad_request_response (cfg : config) : response :=
+  mkResp 400 (reason 400) (default_headers cfg synthetic_request) [text_range (cf_errmsg cfg)].
+
+(* Server::process / Server::process_request up to the write: read into a zero-filled buffer, parse, dispatch, serialise *)
+Definition process_with (app : request -> sres response) (cfg : config) (input : list N) : outcome :=
   let n := N.to_nat (cf_size cfg) in
   let buf := firstn n input ++ repeat 0 (n - length (firstn n input)) in
   match parse_request buf with
-  | Request.Panic _ => Panicked SUrlUnwrap      (* spike: Content-Length site folded into one constructor *)
-  | Request.Err _ => Wrote400
+  | Request.Panic _ => Panicked SUrlUnwrap       (* unreachable: parse_request has no panic site left *)
+  | Request.Err _ => let rs := bad_request_response cfg in Wrote rs (generate_response rs GET) false
   | Request.Ok r =>
-    match app_execute_gen legacy guard cfg fs r with
+    match app r with
     | SPanic s => Panicked s
-    | SErr _ => Wrote400
-    | SOk rs => match log_sum 0 (rs_ranges rs) with
-                | None => PanickedLog
-                | Some _ => Wrote rs (generate_response rs (method r)) end
+    | SErr _ => let rs := bad_request_response cfg in Wrote rs (generate_response rs GET) false    (* handler returned Err *)
+    | SOk rs => Wrote rs (generate_response rs (method r)) true
     end
   end.
+Definition process_gen (legacy : bool) (cfg : config) (fs : fsys) : list N -> outcome :=
+  process_with (app_execute_gen legacy cfg fs) cfg.
 
 Definition process := process_gen false.
 Definition process_legacy := process_gen true.
